@@ -456,6 +456,16 @@ func (rn *raNode) waitWorker(cond func() bool) bool {
 	return cond()
 }
 
+// raStorageEntries reads [lo, hi) from the node's raft storage; the storage panics when it does not hold the range.
+func raStorageEntries(ms *raftlib.MemoryStorage, lo, hi uint64) (ents []raftpb.Entry, err error) {
+	defer func() {
+		if r := recover(); r != nil {
+			err = fmt.Errorf("%v", r)
+		}
+	}()
+	return ms.Entries(lo, hi, 1<<30)
+}
+
 var raSentinel = &types.Block{Header: &types.BlockHeader{BlockNo: 1 << 50}}
 
 // apply publishes the committed entry idx (with `overlap` already applied entries in front of it, which
@@ -467,9 +477,9 @@ func (rn *raNode) apply(idx uint64, overlap uint64, what string) error {
 		lo--
 		overlap--
 	}
-	ents, err := rn.rs.raftStorage.Entries(lo, idx+1, 1<<30)
+	ents, err := raStorageEntries(rn.rs.raftStorage, lo, idx+1)
 	if err != nil {
-		return fmt.Errorf("raft storage has no entries %d..%d: %v", lo, idx, err)
+		return fmt.Errorf("the raft storage of the node cannot hand out the committed entries %d..%d: %v", lo, idx, err)
 	}
 	sentinel := false
 	if what == "marker" {
@@ -1105,10 +1115,8 @@ func raRunBehaviour(b *raBehaviour, in *raInput, res *raRes, prog *raProgress, s
 				}
 				rest = append(rest, e)
 			}
-			if len(rest) == 0 && uint64(len(log)) > uint64(len(finalEnt)) {
-				// the image's log is longer than the final one only if the final one was truncated by an overwrite
-				panic("image log longer than the final log without a differing entry")
-			}
+			// (the image's log may be longer than the final one: the run truncated it and wrote the same entries again; the
+			// surplus stays uncommitted)
 			rd := raftlib.Ready{Entries: rest}
 			if finalCommit > o.Commit {
 				rd.HardState = raftpb.HardState{Term: finalEnt[len(finalEnt)-1].Term, Commit: finalCommit}
@@ -1173,7 +1181,7 @@ func TestVerifRaftApply(t *testing.T) {
 	if !verifkit.Enabled() {
 		t.Skip("run through the check driver")
 	}
-	zerolog.SetGlobalLevel(zerolog.FatalLevel)
+	zerolog.SetGlobalLevel(zerolog.ErrorLevel)
 	BlockIntervalMs = time.Millisecond
 	ConfSnapshotCatchUpEntriesN = 1
 	var in raInput
